@@ -107,3 +107,27 @@ PROPS["C02"] = dict(
         assumptions=_E1_ASSUME,
     ),
 )
+
+PROPS["C03"] = dict(
+    level="model_checking",
+    budget_s=dict(quick=120, thorough=1200),
+    parts=[dict(name="containers", bin="C03", flavour="plain")],
+    manifest=dict(
+        engine="E1", design_ref="5 / C03",
+        technique="exhaustive enumeration of create/delete/reopen sequences per container kind on the real library against an ordered-list reference model",
+        text="For each of 17 container kinds (11 owning, 6 link containers) every sequence up to depth 3 (quick) / 4 (thorough) over "
+             "create(name from an adversarial pool incl. case/blank variants, '..', UTF-8, UUID-shaped, 200-byte names), delete(first/last/middle child "
+             "by name/id/handle) and REOPEN is executed on a fresh file, from an empty and from a pre-populated container; after every "
+             "step count, enumeration, index/name/id lookups, has-queries by name/id/handle and absence of absent names are compared with "
+             "the ordered-list model (creation order; duplicates rejected).",
+        note="Whether a legal-looking name is accepted is not asserted (only that what exists is consistent and a rejected create changes "
+             "nothing). Entity sources are addressed by id only (no by-name API)."),
+    evidence=dict(
+        keys=dict(states=("distinct", "states"), transitions=("count", "transitions"), traces_validated_against_impl=("count", "traces"),
+                  evaluations=("count", "lookups"), distinct_nontrivial=("distinct", "states")),
+        rule="DFS over all step sequences (alphabet: |pool| creates + 9 deletes + REOPEN) per container kind and seed; each prefix is a trace; "
+             "states = distinct (container kind, ordered name list) model states reached.",
+        bound=dict(quick="depth 3, name pool of 6, seeds {empty, 2 children}", thorough="depth 4, name pool of 8"),
+        assumptions=_E1_ASSUME,
+    ),
+)
